@@ -1,1 +1,3 @@
+pub mod cells;
 pub mod insphere;
+pub mod tess;
